@@ -30,15 +30,21 @@ TRUSTED = ['users.getUserId(x) (recognition of the sender and resolution of name
            'letters are outside the model (generator stays in ASCII plus uncased whitespace code points)',
            'expiring ignores (`admin ignore add <mask> <seconds>`) are modelled only for the literal forms the generator uses',
            'C02_grow_only_entitled (capabilities grow only through an entitled add) is NOT a Coq theorem in this development: it is checked by '
-           'the direct oracle on the implementation and, through the model, by the correspondence; proved are the owner clauses']
+           'the direct oracle on the implementation and, through the model, by the correspondence; proved are the owner clauses',
+           'reload theorem: the starting database is well formed (wf_state: in particular hashed passwords) and stored hostmasks are single '
+           'tokens at reload points (hosts_dom; `user hostmask add "a!b@c\\n"` is accepted by isUserHostmask and falls outside: harmless on '
+           'the live bot, the written blank line is skipped, but not covered by the theorem)']
 ASSUMPTIONS = ['world.testing/log.testing off; Python asserts enabled', 'owner-only commands and direct file edits are not available to the actors',
                'the owner account never speaks; no other plugin is loaded', 'login timeout (databases.users.timeoutIdentification) is 0 (default)']
 LEVEL_TEXT = ('Coq theorems over an executable Gallina model of the account/capability commands of the User, Admin and Channel plugins with their '
               'converter lists, the dispatch gates (checkIgnored, checkCommandCapability), newUser/setUser/delUser and flush+reload, built on the '
               'C03 (capability algebra, checkCapability), C04 (hostmask matching), C13 (tokenizer) and C16 (users.conf writer/reader) models: for '
-              'every history of commands (any caller, any recognition oracle) the in-memory owner set never grows and a capability only appears '
-              'through an entitled admin or channel-op add; after flush+reload the owner set does not grow whenever the accounts written satisfy '
-              'C16\'s domain, and it DOES grow outside it (F1: CR/LF in a name; F43: leading blank in a capability), both witnesses replayed live.')
+              'every history of commands (any caller, any recognition oracle) the in-memory owner set never grows; with the repairs of C02.F1 '
+              '(user names validated by register/changename) and C02.F43 (capability tokens in admin capability add) well-formedness of the '
+              'accounts for users.conf is an invariant of all histories, and from a well-formed database no history of commands, flushes and '
+              'reloads adds an owner, whatever the id/name/hostmask collisions (own reader theorem, C02/Reader.v); the only domain condition left '
+              'is that stored hostmasks are single tokens at reload points.  The clause "capabilities grow only through an entitled add" is '
+              'checked by the direct oracle and the correspondence, not by a theorem.')
 LEVEL_NOTE = ('Trusted: Coq kernel, gen_tables.py, extraction + driver, harness; recognition of the sender (users.getUserId on hostmasks) is an '
               'oracle input; the tie to the source is the regenerated converter/default tables plus the differential live run.')
 TECHNIQUE = 'Coq proof (induction over command histories, invariant on owner sets, composition with C16 round trip) + regenerated tables + extracted-model differential correspondence on a live bot'
@@ -371,7 +377,7 @@ CAPS = ['foo', 'bar', 'admin', 'owner', 'OWNER', 'Owner', ' owner', '\towner', '
 CHANS = ['#c', '#C', '#d', '&e', 'c', '#c,d', '#']
 CCAPS = ['op', 'foo', 'voice', '-op', ' op', 'owner', 'x y', '', 'OP', '-foo', 'halfop']
 MASKS = ['anon!a@host.anon', 'plain!p@host.plain', 'adm!m@host.adm', 'boss!o@host.owner', '*!*@host.anon', 'x!y@z', '*!*@*', 'a!b@c',
-         'new!n@host.new', 'nomask', 'all', 'anon', 'plain', '$a:x', '#x!y@z', 'N!e\nw@h']
+         'new!n@host.new', 'nomask', 'all', 'anon', 'plain', '$a:x', '#x!y@z', 'N!e\nw@h', 'a!b@c\n', 'nl!x@host.plain\n']
 BOOLS = ['True', 'False', 'on', 'off', ' 1 ', 'maybe', 'ENABLE', '0']
 
 
@@ -489,36 +495,9 @@ CORPUS = [
 
 
 # ---------------------------------------------------------------------------
-# classes of known findings (on the failing input alone)
-def _reload_last(inp):
-    return bool(inp.get('steps')) and inp['steps'][-1].get('op') == 'reload'
-
-
-def name_crlf(inp):
-    """F1: the failure is observed at a reload and a user name given to register/changename contains CR or LF"""
-    if not _reload_last(inp):
-        return False
-    for st in inp['steps']:
-        if st.get('cmd') == 'user register' and st['args'][:1] and any(c in st['args'][0] for c in '\r\n'):
-            return True
-        if st.get('cmd') == 'user changename' and len(st['args']) >= 2 and any(c in st['args'][1] for c in '\r\n'):
-            return True
-    return False
-
-
-def cap_not_token(inp):
-    """F43: the failure is observed at a reload and a capability given to `capability add` starts with whitespace or contains CR/LF"""
-    if not _reload_last(inp):
-        return False
-    for st in inp['steps']:
-        if st.get('cmd') in ('admin capability add', 'channel capability add') and st['args']:
-            c = st['args'][-1]
-            if c and (c[0].isspace() or any(x in c for x in '\r\n')):
-                return True
-    return False
-
-
-CLASSES = {'name_crlf': name_crlf, 'cap_not_token': cap_not_token}
+# classes of known findings: none (C02.F1 and C02.F43 are repaired; their witnesses W_F1, W_F43 stay first in the corpus,
+# so a regression is reported as a VIOLATION with the old witness as replay)
+CLASSES = {}
 
 
 # ---------------------------------------------------------------------------
@@ -583,7 +562,7 @@ def run(ctx):
                 break
             st = h['steps'][i]
             if st.get('op') == 'reload':
-                ctx.dist['reload:dom=%d' % out[i][1]] += 1
+                ctx.dist['reload:c16dom=%d,wf=%d,hosts=%d' % (out[i][1], out[i][4], out[i][5])] += 1
             elif not st.get('op'):
                 ctx.dist['effect:%d' % out[i][3]] += 1
 
